@@ -740,7 +740,7 @@ class Sim:
 
         self.stderr = io.StringIO()
         try:
-          with contextlib.redirect_stderr(self.stderr):
+          with contextlib.redirect_stderr(self.stderr), contextlib.redirect_stdout(self.stderr):
             try:
                 ds.pytest_sessionstart(FakeSession())  # type: ignore[arg-type]
                 r = ds.pytest_runtestloop()
